@@ -950,7 +950,7 @@ func init() {
 		ID: "C09", Level: "exploration", Run: c09Run,
 		Shards: func(string) int { return 16 },
 		Rule: func(tier string) string {
-			return "every Get/Set pair of every nasType element (registry generated from the current tree) x prior contents x argument values: single-octet fields over all 256 priors of the host octet x argument values (all 256 in thorough) with the other octets in {00,FF,A5}; multi-octet bit fields over all field values x host-octet priors (all 2^16 in thorough); copy fields and INF fields over fill/position patterns and short/equal/long arguments; oracle computed from the pinned annotation only (Get = annotated bits; Set changes exactly those bits; Iei/Len/other bits and storage length unchanged). Then the mask helper GetBitMask over every (ub, lb) in every ordered pair of calls, and a second pass over the accessors in reverse order (an accessor must not depend on which accessors ran before it). A case is (accessor, prior contents, argument); distinct_nontrivial counts accessor pairs exercised."
+			return "every Get/Set pair of every nasType element (registry generated from the current tree) x prior contents x argument values: single-octet fields over all 256 priors of the host octet x argument values (all 256 in thorough) with the other octets in {00,FF,A5}; multi-octet bit fields over all field values x host-octet priors (all 2^16 in thorough); copy fields and INF fields over fill/position patterns and short/equal/long arguments; oracle computed from the pinned annotation only (Get = annotated bits; Set changes exactly those bits; Iei/Len/other bits and storage length unchanged). Then the mask helper GetBitMask over every (ub, lb) in every ordered pair of calls, and a second pass over the accessors in reverse order (an accessor must not depend on which accessors ran before it). The DNN value accessor (label form): 6 prior values (installed by SetDNN or like a decoder) x ~900 new values built from 1..3 labels of lengths {0,1,3,30,61..64,97..101}: afterwards the element either holds exactly the new value's labels with the matching length (and GetDNN returns the value) or is exactly as before (a refused set changes nothing); values with labels of 1..62 octets and at most 100 octets in label form must be accepted. A case is (accessor, prior contents, argument); distinct_nontrivial counts accessor pairs exercised."
 		},
 		Assumptions: []string{
 			"the accessor annotations (pinned in mc/spec/accessors.json) are the documented layout; their agreement with the TS 24.501 figures is assumed",
